@@ -35,7 +35,10 @@
 //                request handle, until MPI reports completion; the future is not touched)
 //       Until `c` (or wait/get/spin) the interposed MPI_Test answers "not complete" to the first MPI_Test of a ready()
 //       call -- a legal MPI outcome -- so that ready() is deterministic.
-//       answer per rank: T/F, ok, [data] (or _ where the payload is not specified), ERR:InvalidFuture, c, -
+//       answer per rank: T/F, ok, [data] (or _ where the payload is not specified), ERR:InvalidFuture, c, -,
+//       and * for ready()/polling on an invalid future (result taken, default constructed, moved from): the property
+//       speaks about wait/get on invalid futures only (MPIFuture::ready answers true there, PseudoFuture::ready and
+//       Dune::Future::ready throw), so the answer is not compared
 //
 // Oracles (independent of the Lean model):
 //   guard   for every section and communicator: failed := some member's act in {f,x,q}; every member with act in
@@ -596,7 +599,7 @@ static Result runSteps(IFut& f, const FutCase& c, const Expect& ex) {
           long before = ip::forced;
           bool r = f.ready();
           ip::pendingBudget = 0;
-          o = r ? "T" : "F";
+          o = taken ? "*" : r ? "T" : "F";  // the property says nothing about ready() on an invalid future
           stat(std::string("fut_ready_") + (r ? "true" : "false") + (taken ? "_invalid" : known ? "_complete" : "_pending"));
           if (!taken) {
             if (known && !r) note(where + "ready() = false although the operation has completed");
@@ -615,7 +618,7 @@ static Result runSteps(IFut& f, const FutCase& c, const Expect& ex) {
             if (spins > 100) usleep(spins > 2000 ? 500 : 30);
             if (std::chrono::steady_clock::now() - t0 > std::chrono::seconds(60)) break;
           }
-          o = r ? "T" : "TIMEOUT";
+          o = !r ? "TIMEOUT" : taken ? "*" : "T";
           if (!r) note(where + "ready() never became true although every process takes part in the operation");
           if (r) completed = true;
           break;
@@ -652,7 +655,8 @@ static Result runSteps(IFut& f, const FutCase& c, const Expect& ex) {
         default: o = "?";
       }
     } catch (Dune::InvalidFutureException&) {
-      o = "ERR:InvalidFuture";
+      o = ((op == 'y' || op == 's') && taken) ? "*" : "ERR:InvalidFuture";
+      if ((op == 'y' || op == 's') && taken) stat("fut_ready_throws_invalid");
       if ((op == 'w' || op == 'g') && !taken) note(where + "InvalidFutureException although the future is valid (result not taken)");
       if ((op == 'y' || op == 's') && !taken) note(where + "ready() threw InvalidFutureException although the future is valid");
       if (op == 'v') note(where + "valid() threw");
@@ -1078,11 +1082,16 @@ static const std::vector<std::string> kCtors = {"cc", "mpicomm", "def", "helper"
 static int g_seqLen = 3;
 
 static long guardEnumSize(int P) { return P <= 3 ? (long)kCtors.size() * ipow(3, P) : 0; }
+// every path of one rank through arm + act: guard object before (none / inactive / armed by reactivate() / destroyed),
+// way of arming, act, and what a second rank does in the same section
+static long pathEnumPerCtor(int P) { return 4L * 3 * 6 * (P >= 2 ? 6 : 1); }
+static long pathEnumSize(int P) { return pathEnumPerCtor(P) * (P <= 2 ? (long)kCtors.size() : 1); }
 static long futEnumSize() { return (long)futKinds().size() * (long)allSeqs("vywg", g_seqLen).size(); }
 
 static std::string gen(Rng& rng, long i, const Args& a) {
   const int P = g_size;
   static const std::vector<int> pcts = {0, 0, 15, 35, 60, 100};
+  const std::vector<long> zeros(P, 0);
   // 1. every failure subset x both failure modes in one section (P <= 3), for every constructor, among other sections
   long ge = guardEnumSize(P);
   if (i < ge) {
@@ -1095,18 +1104,49 @@ static std::string gen(Rng& rng, long i, const Args& a) {
     for (int k = 0; k < before; ++k) secs.push_back(randomSection(rng, P, false, rng.pick(pcts)));
     secs.push_back(sec);
     for (int k = 0; k < after; ++k) secs.push_back(randomSection(rng, P, k == after - 1, rng.pick(pcts)));
-    return "guard " + ctor + " " + listStr(std::vector<long>(P, 0)) + " : " + join(secs.begin(), secs.end(), ";");
+    matchEnd(rng, secs.back(), effOf(ctor, zeros));
+    return "guard " + ctor + " " + listStr(zeros) + " : " + join(secs.begin(), secs.end(), ";");
   }
   i -= ge;
-  // 2. every non-blocking operation x every call sequence over valid/ready/wait/get up to length g_seqLen
+  // 1b. every path of rank 0 through one section
+  long pe = pathEnumSize(P);
+  if (i < pe) {
+    const long per = pathEnumPerCtor(P);
+    std::string ctor = P <= 2 ? kCtors[i / per] : kCtors[i % (long)kCtors.size()];
+    long x = i % per;
+    static const char* prevs[] = {"", "nt", "nr", "nx"};
+    const std::string prev = prevs[x % 4]; x /= 4;
+    const char arm = "nma"[x % 3]; x /= 3;
+    const char act = "tdfrxq"[x % 6]; x /= 6;
+    const char other = "tdfrxq"[x % 6];
+    std::vector<std::string> secs;
+    auto sec = [&](const std::string& r0, const std::string& r1) {
+      std::string s2 = r0;
+      for (int r = 1; r < P; ++r) s2 += r == 1 ? r1 : std::string("nt");
+      return s2;
+    };
+    if (!prev.empty()) secs.push_back(sec(prev, "nt"));
+    secs.push_back(sec(std::string(1, arm) + act, std::string("n") + other));
+    if (!endMatched(secs.back(), effOf(ctor, zeros)) || rng.coin()) {  // closing section: everybody re-arms and succeeds
+      std::string t;
+      for (int r = 0; r < P; ++r) t += "at";
+      secs.push_back(t);
+    }
+    return "guard " + ctor + " " + listStr(zeros) + " : " + join(secs.begin(), secs.end(), ";");
+  }
+  i -= pe;
+  // 2. every non-blocking operation x every call sequence over valid/ready/wait/get up to length g_seqLen; the wrappers
+  //    of the operation rotate over the sequences
   static const std::vector<std::string> seqs = allSeqs("vywg", g_seqLen);
   long fe = futEnumSize();
   if (i < fe) {
-    const FutKind& k = futKinds()[i / (long)seqs.size()];
-    const std::string& s = seqs[i % (long)seqs.size()];
+    const long ki = i / (long)seqs.size(), si = i % (long)seqs.size();
+    const FutKind& k = futKinds()[ki];
+    const std::string& s = seqs[si];
     std::vector<std::string> steps;
     for (char ch : s) steps.push_back(std::string(P, ch));
-    return futLine(rng, k, P, steps, (i % 2) ? "erased" : "raw");
+    const std::vector<std::string> ws = wrapsOf(k);
+    return futLine(rng, k, P, steps, ws[(size_t)(si + ki) % ws.size()]);
   }
   // 3. random
   if (rng.coin(1, 2)) {
@@ -1114,7 +1154,9 @@ static std::string gen(Rng& rng, long i, const Args& a) {
     int n = (int)rng.range(1, P >= 4 ? 5 : 6);
     std::vector<std::string> secs;
     for (int k = 0; k < n; ++k) secs.push_back(randomSection(rng, P, k == n - 1, rng.pick(pcts)));
-    return "guard " + ctor + " " + randomGroups(rng, P, ctor) + " : " + join(secs.begin(), secs.end(), ";");
+    std::string groups = randomGroups(rng, P, ctor);
+    matchEnd(rng, secs.back(), effOf(ctor, parseList(groups)));
+    return "guard " + ctor + " " + groups + " : " + join(secs.begin(), secs.end(), ";");
   }
   const FutKind& k = rng.pick(futKinds());
   int n = (int)rng.range(1, 6);
@@ -1133,7 +1175,7 @@ static std::string gen(Rng& rng, long i, const Args& a) {
     }
     steps.push_back(st);
   }
-  return futLine(rng, k, P, steps, rng.coin() ? "erased" : "raw");
+  return futLine(rng, k, P, steps, rng.pick(wrapsOf(k)));
 }
 
 int main(int argc, char** argv) {
@@ -1150,7 +1192,7 @@ int main(int argc, char** argv) {
   // --random R : number of random cases after the enumerations;  --seqlen L : exhaustive call-sequence length
   Args a = parseArgs(argc, argv);
   g_seqLen = (int)a.get("seqlen", a.tier == "thorough" ? 4 : 3);
-  long total = guardEnumSize(g_size) + futEnumSize() + a.get("random", 300);
+  long total = guardEnumSize(g_size) + pathEnumSize(g_size) + futEnumSize() + a.get("random", 300);
   std::vector<std::string> av(argv, argv + argc);
   if (a.replay.empty() && a.extra.find("exact-cases") == a.extra.end()) { av.push_back("--cases"); av.push_back(std::to_string(total)); }
   if (a.extra.find("case-timeout") == a.extra.end()) { av.push_back("--case-timeout"); av.push_back("100"); }
